@@ -214,27 +214,74 @@ func (x *Exec) axiomIfClosed(t *Term) {
 		return
 	}
 	// a load under a quantifier: the type invariant holds of every cell, so it
-	// is stated for all values of the bound variables
-	var vars []*Term
+	// is stated for all values of the bound variables - one quantifier per
+	// conjunct, triggered by the load it is about (without a trigger the
+	// invariants of a slice of large structs instantiate each other endlessly)
+	conjuncts := []*Term{t}
+	if t.Op == "and" && t.QVars == nil {
+		conjuncts = t.Args
+	}
+	for _, c := range conjuncts {
+		if !c.Bound {
+			x.axiom(c)
+			continue
+		}
+		var vars []*Term
+		var pat *Term
+		seen := map[*Term]bool{}
+		var walk func(u *Term)
+		walk = func(u *Term) {
+			if seen[u] || !u.Bound {
+				return
+			}
+			seen[u] = true
+			if len(u.Args) == 0 && u.QVars == nil {
+				vars = append(vars, u)
+				return
+			}
+			for _, a := range u.Args {
+				walk(a)
+			}
+			if pat == nil && u.Op == "select" && len(u.Args) == 2 && !u.Args[0].Bound && u.QVars == nil {
+				pat = u // innermost load whose address depends on the bound variables
+			}
+		}
+		walk(c)
+		if len(vars) == 0 || c.isTrue() {
+			continue
+		}
+		if pat != nil && patternOK(pat, map[*Term]bool{}) && coversVars(pat, vars) {
+			x.axiom(ForallPat(vars, c, pat))
+		} else {
+			x.axiom(Forall(vars, c))
+		}
+	}
+}
+
+// coversVars: every bound variable occurs in the pattern.
+func coversVars(pat *Term, vars []*Term) bool {
+	found := map[*Term]bool{}
 	seen := map[*Term]bool{}
 	var walk func(u *Term)
 	walk = func(u *Term) {
-		if seen[u] || !u.Bound {
+		if seen[u] {
 			return
 		}
 		seen[u] = true
-		if len(u.Args) == 0 && u.QVars == nil {
-			vars = append(vars, u)
-			return
+		if len(u.Args) == 0 {
+			found[u] = true
 		}
 		for _, a := range u.Args {
 			walk(a)
 		}
 	}
-	walk(t)
-	if len(vars) > 0 && !t.isTrue() {
-		x.axiom(Forall(vars, t))
+	walk(pat)
+	for _, v := range vars {
+		if !found[v] {
+			return false
+		}
 	}
+	return true
 }
 
 func (x *Exec) evalIdent(st *State, id *ast.Ident) *Term {
